@@ -12,7 +12,7 @@ RULE = ("6 memento functions x 3 arguments whose scripted bodies return a value 
         "2-d, pandas index/series/frame with plain, named and multi indexes, in-memory / nested / on-disk partitions, and "
         "list/dict nestings of them) or raise (built-in, module-level custom, constructor needing two arguments, class local "
         "to a function, NonMemoizedException subclass); histories of call (normal / ignore_result / force_local), repeat, "
-        "forget, forget_all, memento, restart, evict, clock jump on filesystem, filesystem+cache (4 KiB..4 MiB) and memory "
+        "forget, forget_all, forget_cluster, memento, restart, evict, clock jump on filesystem, filesystem+cache (4 KiB..4 MiB) and memory "
         "backends; non-trivial = >= 1 repeat call after a first call; distinct = event-log digest")
 ASSUMPTIONS = ["equality is type-aware deep equality (bool != int, date != Timestamp, dtype/index compared, NaN == NaN)",
                "under ignore_result exceptions still propagate, memoized ones included (as ignore_result() documents and as a fresh exception does)"]
@@ -88,8 +88,10 @@ def gen_case(seed):
             ops.append(["call", f, x, rng.choice(["normal", "normal", "normal", "ignore", "force_local"])])
         elif r < 0.65:
             ops.append(["forget", f, x])
-        elif r < 0.68:
+        elif r < 0.67:
             ops.append(["forget_all", f])
+        elif r < 0.69:
+            ops.append(["forget_cluster"])
         elif r < 0.78:
             ops.append(["memento", f, x])
         elif r < 0.86:
@@ -183,6 +185,9 @@ def _segment(root, case, ops, ledger, first_index):
                     getattr(mod, "v%d" % op[1]).forget(op[2])
                 elif k == "forget_all":
                     getattr(mod, "v%d" % op[1]).forget_all()
+                elif k == "forget_cluster":
+                    from twosigma.memento import forget_cluster
+                    forget_cluster(None)
                 elif k == "memento":
                     mem = getattr(mod, "v%d" % op[1]).memento(op[2])
                     rec["out"] = ["memento", None if mem is None else mem.invocation_metadata.result_type.name]
@@ -335,6 +340,9 @@ def execute(case):
                     for kk in [kk for kk in memo if kk[0] == op[1]]:
                         del memo[kk]
                     bump("forgets")
+                elif k == "forget_cluster":
+                    memo.clear()
+                    bump("forget_cluster")
                 elif k == "memento":
                     key = (op[1], op[2])
                     spec = case["specs"]["%d,%d" % key]
